@@ -819,6 +819,24 @@ fn execute(c: &'static CaseDesc, plan: &Plan, ctx: &mut Ctx<'_>) {
             ctx.fail("harness", "unexpected-injected", "injected panic in a world that injects none".into());
             return;
         }
+        Caught::Foreign(msg) if msg.contains(simrng::NO_PROGRESS_MARKER) => {
+            // liveness after the fault has stopped: a faulty stream is healed after HEAL_AFTER_WORDS words of
+            // one call, so whatever is still looping LIVENESS_BOUND_WORDS words later loops on a fair stream
+            ctx.checked();
+            ctx.fail(
+                &format!("no-progress:{dist_name}"),
+                &format!("no-progress:{}:{dist_name}", c.name),
+                format!(
+                    "one sampling call drew more than {} entropy words without returning (entropy: {}; a faulty stream is replaced by a fair one after {} words) for end points lo=[{}] hi=[{}]",
+                    simrng::LIVENESS_BOUND_WORDS,
+                    plan.entropy.kind(),
+                    simrng::HEAL_AFTER_WORDS,
+                    ftext(&plo, c.n),
+                    ftext(&phi, c.n)
+                ),
+            );
+            return;
+        }
         Caught::Foreign(msg) => {
             ctx.checked();
             ctx.fail(
@@ -865,6 +883,11 @@ fn execute(c: &'static CaseDesc, plan: &Plan, ctx: &mut Ctx<'_>) {
         ctx.changed();
     }
     ev!(ctx, "drew {drawn} samples, {} entropy words, digest {:016x}", rng.words_drawn, hasher.finish());
+    if rng.healed_calls > 0 {
+        // a sampler that uses rejection kept asking a stuck source: the fault was stopped so that it could finish
+        ctx.probe("faulty-entropy-healed-so-that-a-rejection-loop-could-finish");
+        ctx.extra("sampling-calls-healed", rng.healed_calls);
+    }
     if judge.hit_lo {
         ctx.probe("sample-equals-low-end");
     }
